@@ -114,7 +114,11 @@ def rules(ctx: Ctx) -> None:
     # ---- R06.4 identity --------------------------------------------------------------------------------------
     ids = identities(prog)
     for name, i in ids.items():
-        ctx.ob("R06.4", f"hash-determined-by-eq:{name}", i.hash_fields <= i.eq_fields, i.cls.loc(), f"{name}: hash fields {sorted(i.hash_fields)} within eq fields {sorted(i.eq_fields)}")
+        # equal objects hash equally: every projection the hash is computed from is one that equality compares (fields alone are not enough:
+        # hash(str(self)) prints the owner by *name*, and owners that compare equal - sub-queries with the same text - may print differently)
+        proj_ok = all(hp in i.eq_projs for hp in i.hash_projs)
+        ctx.ob("R06.4", f"hash-determined-by-eq:{name}", i.hash_fields <= i.eq_fields and proj_ok, i.cls.loc(),
+               f"{name}: hash of {i.hash_projs} (fields {sorted(i.hash_fields)}) must be determined by what __eq__ compares, {i.eq_projs} (fields {sorted(i.eq_fields)})")
         # I2: identity fields are not stored outside __init__ (except Column._parent through its setter)
         ident_fields = i.eq_fields | i.hash_fields
         for f in prog.funcs.values():
